@@ -45,7 +45,7 @@ func c07Pool(quick bool) []recipe {
 	}
 	var rs []recipe
 	if quick {
-		for _, i := range []int{0, 1, 2, 3, 4, 7, 9} {
+		for _, i := range []int{0, 1, 2, 3, 4, 5, 7, 9} {
 			rs = append(rs, specRecipe(shapes.Spec{Chunks: specs[i], Mode: shapes.Opt, Share: shapes.Plain}))
 		}
 		rs = append(rs, specRecipe(shapes.Spec{Chunks: specs[0], Mode: shapes.Opt, Share: shapes.COW}))
@@ -521,5 +521,11 @@ func runC07(c *Ctx) {
 		scs = append(scs, p2)
 	}
 	scs = append(scs, c07Scenario64(c))
+	pb := pairBFS("copy-on-write pair closure (unstructured histories)", q, 3, false)
+	if !q {
+		pb.MaxDepth = 4
+	}
+	pb.Deadline = c.Budget(119, 1795)
+	scs = append(scs, pb)
 	runScenarios(c, scs...)
 }
